@@ -46,6 +46,21 @@ def cases(rng, tier):
             e = "prf=" + (IL.to_bytes(32, "big") + IL.to_bytes(32, "big")).hex()
             yield "bip85 %s wif 0 0 %s" % (spec, e), "bip85-wif"
             yield "bip85 %s xprv 0 0 %s" % (spec, e), "bip85-xprv"
+        # PATHS of several levels whose invalid child sits at level j (the private key is zero there: IL = -k/j mod n;
+        # the public key is the point at infinity there), with levels before and behind it, all-hardened, all-normal
+        # and mixed: the request as a whole is refused
+        H = 2 ** 31
+        for j in (1, 2, 3):
+            IL = (-k * pow(j, -1, N)) % N
+            prf = "prf=" + (IL.to_bytes(32, "big") + bytes(rng.getrandbits(8) for _ in range(32))).hex()
+            for extra_levels in (0, 1, 2):
+                L = j + extra_levels
+                for shape in ("hard", "normal", "mixed"):
+                    ls = [rng.choice([0, 1, 7, 83696968]) + (H if shape == "hard" or (shape == "mixed" and rng.random() < 0.5) else 0)
+                          for _ in range(L)]
+                    yield "ckd %s %s %s" % (spec, impl.lst(str, ls), prf), "path-invalid-level-%d-of-%d-%s" % (j, L, shape)
+                    if shape == "normal":
+                        yield "ckd %s %s %s" % (pub, impl.lst(str, ls), prf), "path-invalid-level-pub"
 
 
 def _bulk_cases(rng, tier):
@@ -79,14 +94,17 @@ def oracle(line, out):
             return None if v is None else "invalid master key returned (IL = %x)" % IL
         return "valid master key refused" if v is None else None
     if op == "ckd":
+        # (a path of several levels under the constant PRF: every level sees the same IL; the FIRST invalid level
+        # decides — nothing behind it can make the request valid again)
         spec = tok[1]
         cls, key, chain, depth, index, t, fp = spec.split(":")
-        idx = int(tok[2])
+        levels = impl.unlist(int, tok[2])
         if cls == "P":
             k = int.from_bytes(unhex(key), "big")
-            bad = IL >= N or (IL + k) % N == 0
-            if bad:
-                return None if v is None else "invalid private child returned (IL = %x)" % IL
+            for lv, _i in enumerate(levels):
+                if IL >= N or (IL + k) % N == 0:
+                    return None if v is None else "invalid private child (level %d of the path, IL = %x) passed over: a node was returned" % (lv + 1, IL)
+                k = (IL + k) % N
             if v is None:
                 return "valid private child refused"
             if int.from_bytes(unhex(v.split(" ")[2]), "big") in (0,) or int.from_bytes(unhex(v.split(" ")[2]), "big") >= N:
@@ -94,13 +112,17 @@ def oracle(line, out):
             return None
         import ecdsa
         vk = ecdsa.VerifyingKey.from_string(unhex(key), curve=ecdsa.SECP256k1)
-        if IL >= N:
-            return None if v is None else "public child returned although IL >= n"
-        if IL == 0:
-            return None      # documented corner: the public side refuses, BIP32 does not require it to
-        pt = ecdsa.SECP256k1.generator * IL + vk.pubkey.point
-        if pt == ecdsa.ellipticcurve.INFINITY:
-            return None if v is None else "public child at infinity returned"
+        pt = vk.pubkey.point
+        for lv, i_ in enumerate(levels):
+            if i_ >= 2 ** 31:
+                return None         # hardened from public data: C02's subject
+            if IL >= N:
+                return None if v is None else "public child returned although IL >= n"
+            if IL == 0:
+                return None      # documented corner: the public side refuses, BIP32 does not require it to
+            pt = ecdsa.SECP256k1.generator * IL + pt
+            if pt == ecdsa.ellipticcurve.INFINITY:
+                return None if v is None else "public child at infinity (level %d of the path) passed over: a node was returned" % (lv + 1)
         return "valid public child refused" if v is None else None
     if op == "ckd_retry":
         if v is None:
